@@ -11,7 +11,7 @@ def check(ctx):
     rep.analysed["entry_points"] = len(E)
     rep.floor("Zinc decoder bodies", len(EZ), 80)
     rep.floor("Hayson decoder bodies", len(EJ), 35)
-    pr = panic.PanicRule(ctx)
+    pr = panic.PanicRule(ctx, parsed_timestamps_only=True)
     reach, nsites = pr.run(E, rep)
     rep.floor("potential panic sites examined", nsites, 40)
     lr = loops.LoopRule(ctx, eof_only_errors=False)
@@ -30,6 +30,7 @@ def check(ctx):
     serde_limit(ctx, rep)
     rep.assume("A1: rustc's MIR of the default-feature lib build is the program")
     rep.assume("A2: external functions outside the may-panic table return without panicking; a caller-supplied Read returns")
+    rep.assume("timestamps in scope are parsed (0000-9999): chrono's local-time accessors panic only within a day of its +-262143-year limits")
     rep.assume("A6: fewer than 2^64 loop iterations per run")
     rep.assume("A7: chrono's FixedOffset Display is +HH:MM[:SS]")
     return ("Decoders analysed as a whole program: R-PANIC over the %d bodies reachable from %d Zinc and Hayson decoder entry points (%d sites); "
